@@ -73,9 +73,17 @@ var advKinds = []string{
 var answerKinds = []string{
 	"proceed-tls", "proceed-pipelined-tls", "proceed-pipelined-eof", "proceed-eof", "proceed-cleartext",
 	"failure", "unknown-el", "proceed-wrongns", "text", "eof", "success-forged", "features-again", "stream-error",
+	// white space as the first token of the answer
+	"ws-proceed-tls", "ws-eof", "ws-failure", "ws-features",
 }
 
 var inTLSKinds = []string{"full", "features-empty", "eof", "auth-failure"}
+
+// what the peer's stream headers inside TLS carry; the clear-text header always
+// carries id='c1' version='1.0'
+var tlsHdrKinds = []string{"complete", "no-id", "no-version", "no-id-version"}
+
+const clearID = "c1"
 
 var teeKinds = []string{"off", "in", "out", "both"}
 
@@ -88,6 +96,7 @@ type scenario struct {
 	Inst   bool   `json:"instrumented_feature"`
 	Domain string `json:"domain"`
 	TLS12  bool   `json:"tls12,omitempty"`
+	TLSHdr string `json:"tls_header,omitempty"` // "" = complete
 	Order  []int  `json:"feature_order"`
 }
 
@@ -110,7 +119,24 @@ func genScenario(r *rand.Rand) scenario {
 			sc.InTLS = "full"
 		}
 	}
+	sc.TLSHdr = "complete"
+	if r.Intn(3) == 0 {
+		sc.TLSHdr = tlsHdrKinds[1+r.Intn(3)]
+	}
 	return sc
+}
+
+// tlsHeader is the peer's stream header on the protected stream.
+func tlsHeader(sc scenario, id string) string {
+	attrs := ""
+	if sc.TLSHdr != "no-version" && sc.TLSHdr != "no-id-version" {
+		attrs += " version='1.0'"
+	}
+	if sc.TLSHdr != "no-id" && sc.TLSHdr != "no-id-version" {
+		attrs += " id='" + id + "'"
+	}
+	return fmt.Sprintf(`<?xml version='1.0'?><stream:stream xmlns='jabber:client' xmlns:stream='%s'%s from='%s' to='%s@%s/res'>`,
+		nsStream, attrs, sc.Domain, user, sc.Domain)
 }
 
 func mechsXML() string {
@@ -166,6 +192,8 @@ type peerData struct {
 	TLSEvents   []string `json:"tls_events"` // what the client sent inside TLS
 	ReadyPoint  bool     `json:"ready_point"`
 	Pipelined   bool     `json:"pipelined_sent"`
+	TLSHeaders  int      `json:"tls_headers_sent"`
+	AfterWS     []string `json:"after_whitespace,omitempty"` // what the client sent in clear after a white-space-led answer
 }
 
 type peerRec struct {
@@ -242,7 +270,7 @@ func runPeer(conn *bufconn.Conn, sc scenario, rec *peerRec) {
 	if ev != "hdr" {
 		return
 	}
-	io.WriteString(conn, peerHeader(sc, "c1")+advXML(sc))
+	io.WriteString(conn, peerHeader(sc, clearID)+advXML(sc))
 	ev, _ = nextEvent(d)
 	if ev == "" {
 		return
@@ -299,6 +327,22 @@ func runPeer(conn *bufconn.Conn, sc scenario, rec *peerRec) {
 	case "stream-error":
 		io.WriteString(conn, "<stream:error><policy-violation xmlns='urn:ietf:params:xml:ns:xmpp-streams'/></stream:error>")
 		return
+	case "ws-proceed-tls":
+		io.WriteString(conn, "\n"+proceed) // a client may skip the white space or refuse it; then real TLS
+	case "ws-eof":
+		io.WriteString(conn, " \n")
+		return
+	case "ws-failure":
+		io.WriteString(conn, "\n<failure xmlns='"+nsTLS+"'/>")
+		return
+	case "ws-features":
+		// white space, then a features list in clear text that invites the client
+		// to authenticate and bind; whatever the client answers is on the record
+		io.WriteString(conn, "\n<stream:features>"+mechsXML()+"<bind xmlns='"+nsBind+"'/></stream:features>")
+		if ev, _ := nextEvent(d); ev != "" {
+			note(func() { rec.AfterWS = append(rec.AfterWS, ev) })
+		}
+		return
 	default:
 		panic("c02: unknown answer " + sc.Answer)
 	}
@@ -347,11 +391,13 @@ func runPeer(conn *bufconn.Conn, sc scenario, rec *peerRec) {
 	}
 	if sc.InTLS == "features-empty" {
 		note(func() { rec.ReadyPoint = true })
-		io.WriteString(tc, peerHeader(sc, "t1")+"<stream:features/>")
+		note(func() { rec.TLSHeaders++ })
+		io.WriteString(tc, tlsHeader(sc, "t1")+"<stream:features/>")
 		tev()
 		return
 	}
-	io.WriteString(tc, peerHeader(sc, "t1")+"<stream:features>"+inst+mechsXML()+"</stream:features>")
+	note(func() { rec.TLSHeaders++ })
+	io.WriteString(tc, tlsHeader(sc, "t1")+"<stream:features>"+inst+mechsXML()+"</stream:features>")
 	if ev, _ := tev(); ev != "{"+nsSASL+"}auth" {
 		return
 	}
@@ -363,7 +409,8 @@ func runPeer(conn *bufconn.Conn, sc scenario, rec *peerRec) {
 	if ev, _ := tev(); ev != "hdr" {
 		return
 	}
-	io.WriteString(tc, peerHeader(sc, "t2")+"<stream:features><bind xmlns='"+nsBind+"'/></stream:features>")
+	note(func() { rec.TLSHeaders++ })
+	io.WriteString(tc, tlsHeader(sc, "t2")+"<stream:features><bind xmlns='"+nsBind+"'/></stream:features>")
 	ev, el := tev()
 	if ev != "{jabber:client}iq" {
 		return
@@ -381,6 +428,7 @@ func runPeer(conn *bufconn.Conn, sc scenario, rec *peerRec) {
 type instCall struct {
 	State     xmpp.SessionState
 	Handshook bool
+	InID      string
 }
 
 type result struct {
@@ -388,6 +436,8 @@ type result struct {
 	Err       string            `json:"err,omitempty"`
 	State     xmpp.SessionState `json:"state"`
 	Handshook bool              `json:"handshake_complete"`
+	InID      string            `json:"in_stream_id"`
+	InVersion string            `json:"in_stream_version"`
 	Clear     string            `json:"clear_bytes"`
 	Records   int               `json:"tls_records"`
 	Issues    []string          `json:"clear_issues,omitempty"`
@@ -403,8 +453,8 @@ func (r result) secure() bool { return r.State&xmpp.Secure != 0 }
 
 // outcome is the class compared between tee on and tee off.
 func (r result) outcome() string {
-	return fmt.Sprintf("errnil=%v state=%03b handshake=%v clear=%v tls=%v", r.ErrNil, r.State&(xmpp.Secure|xmpp.Authn|xmpp.Ready), r.Handshook,
-		r.Peer.Clear, r.Peer.TLSEvents)
+	return fmt.Sprintf("errnil=%v state=%03b handshake=%v clear=%v tls=%v in=%s/%s", r.ErrNil, r.State&(xmpp.Secure|xmpp.Authn|xmpp.Ready), r.Handshook,
+		r.Peer.Clear, r.Peer.TLSEvents, r.InID, r.InVersion)
 }
 
 func instFeature(calls *[]instCall, mu *sync.Mutex) xmpp.StreamFeature {
@@ -422,7 +472,7 @@ func instFeature(calls *[]instCall, mu *sync.Mutex) xmpp.StreamFeature {
 		},
 		Negotiate: func(ctx context.Context, s *xmpp.Session, data interface{}) (xmpp.SessionState, io.ReadWriter, error) {
 			mu.Lock()
-			*calls = append(*calls, instCall{State: s.State(), Handshook: s.ConnectionState().HandshakeComplete})
+			*calls = append(*calls, instCall{State: s.State(), Handshook: s.ConnectionState().HandshakeComplete, InID: s.In().ID})
 			mu.Unlock()
 			return 0, nil, nil
 		},
@@ -489,6 +539,8 @@ func runSession(c *core.Case, sc scenario, stls xmpp.StreamFeature) result {
 	if s != nil {
 		res.State = s.State()
 		res.Handshook = s.ConnectionState().HandshakeComplete
+		in := s.In()
+		res.InID, res.InVersion = in.ID, in.Version.String()
 	}
 	lib.Close()
 	<-peerDone
@@ -670,6 +722,40 @@ func judge(c *core.Case, sc scenario, res result, prior []string) {
 			c.Violate("clear:feature-before-tls", "a feature with Necessary: Secure was negotiated with state=%b handshake=%v (scenario %+v)", ic.State, ic.Handshook, sc)
 		}
 	}
+	// 2b. nothing of the clear-text stream header survives into the protected
+	// stream: the library forgets the old header before it sends its own on the
+	// new layer, so once the peer has completed a handshake the session never
+	// reports the clear-text id again, and reports version 1.0 only if a
+	// protected header carried it.
+	if res.Peer.HandshakeOK {
+		if sc.TLSHdr == "" {
+			sc.TLSHdr = "complete"
+		}
+		if res.Peer.TLSHeaders > 0 {
+			c.Count("tls_header_"+sc.TLSHdr, 1)
+		}
+		omitsVersion := sc.TLSHdr == "no-version" || sc.TLSHdr == "no-id-version"
+		if res.InID == clearID {
+			c.Violate("clear:header-leak:id", "after a completed TLS handshake Session.In().ID is %q, the id of the clear-text header (protected headers sent: %d, kind %q; state=%b err=%q; scenario %+v)", res.InID, res.Peer.TLSHeaders, sc.TLSHdr, res.State, res.Err, sc)
+		}
+		if res.Peer.TLSHeaders > 0 && omitsVersion && res.InVersion == "1.0" {
+			c.Violate("clear:header-leak:version", "the protected stream header carried no version, yet Session.In().Version is 1.0 as in the clear-text header (state=%b err=%q; scenario %+v)", res.State, res.Err, sc)
+		}
+		for _, ic := range res.Inst {
+			if ic.Handshook && ic.InID == clearID {
+				c.Violate("clear:header-leak:id", "inside TLS a feature saw Session.In().ID = %q, the id of the clear-text header (header kind %q; scenario %+v)", ic.InID, sc.TLSHdr, sc)
+			}
+		}
+		if res.ready() {
+			c.Count("ready_stream_id_checked", 1)
+			if sc.TLSHdr != "complete" {
+				c.Count("ready_with_incomplete_protected_header", 1) // not demanded here; see C12
+			}
+		}
+	}
+	if len(res.Peer.AfterWS) > 0 {
+		c.Count("client_answered_clear_features_after_whitespace", 1)
+	}
 	// 3. server name
 	if sc.Cfg == "default" && res.Peer.Hellos > 0 {
 		c.Count("sni_checked", 1)
@@ -761,7 +847,7 @@ func reuseGroup(c *core.Case, r *rand.Rand, concurrent bool) {
 			Adv:    []string{"tls-required", "tls-optional+others", "mechs-only", "tls-required+others"}[r.Intn(4)],
 			Answer: "proceed-tls",
 			InTLS:  []string{"full", "features-empty"}[r.Intn(2)],
-			Tee:    "off", Cfg: "default", Domain: domains[p[i]], Order: r.Perm(4), Inst: r.Intn(2) == 0,
+			Tee:    "off", Cfg: "default", Domain: domains[p[i]], Order: r.Perm(4), Inst: r.Intn(2) == 0, TLSHdr: "complete",
 		}
 		gs.Scenarios = append(gs.Scenarios, sc)
 	}
@@ -852,7 +938,10 @@ func Prop() *core.Prop {
 	req := []string{"handshakes_completed", "handshakes_completed_cfg_default", "handshakes_completed_cfg_explicit",
 		"pipelined_plaintext_cases", "pipelined_plaintext_then_handshake", "reuse_across_domains_observed", "reuse_concurrent_groups",
 		"tee_pairs_compared", "ready_over_tls", "starttls_forced_when_not_advertised", "sni_checked", "instrumented_feature_calls",
-		"tee_in_captured", "tee_out_captured"}
+		"tee_in_captured", "tee_out_captured", "ready_stream_id_checked"}
+	for _, k := range tlsHdrKinds {
+		req = append(req, "tls_header_"+k)
+	}
 	for _, a := range advKinds {
 		req = append(req, "adv_"+a)
 	}
@@ -863,7 +952,7 @@ func Prop() *core.Prop {
 		ID:    "C02",
 		Level: core.Exploration,
 		Race:  true,
-		Rule:  "a case is a group of client sessions (features StartTLS, SASL PLAIN, BindResource, optionally an instrumented feature with Necessary: Secure, in a PRNG order) over bufconn.Pipe against a concurrent scripted peer: 70% tee comparisons (one script = advertisement [STARTTLS required/optional, alone/among others, absent with mechanisms, empty list, unknown only, wrong namespace] x answer to <starttls/> [<proceed/> + real crypto/tls handshake, <proceed/> + clear text pipelined in the same write then handshake or EOF, <proceed/> then EOF or clear text after the ClientHello, <failure/>, unknown element, wrong namespace, text, EOF, forged <success/>, second features list, stream error] x in-TLS script [full SASL+bind, empty features, EOF, SASL failure] x explicit/default TLS config, run without the tee and with 1-3 of tee in/out/both), 20% one StartTLS(nil) value reused sequentially for 2-5 sessions with different domains, 10% the same concurrently (children are built with -race). Oracles per session: bytes before the first TLS record tokenise to XML declaration + one stream header + at most one <starttls/>; only TLS records follow; Ready => Secure, ConnectionState().HandshakeComplete and the peer reached, inside TLS, the point that legitimately makes a client ready; Authn or a Secure-requiring feature only after the handshake; default config => ClientHello server name = domain of the session's address. Tee relation: identical clear-text bytes and outcome class (nil error, state bits, handshake, sequence of client events in clear and inside TLS). distinct = (advertisement, answer, in-TLS script, tee, cfg, instrumented, outcome class).",
+		Rule:  "a case is a group of client sessions (features StartTLS, SASL PLAIN, BindResource, optionally an instrumented feature with Necessary: Secure, in a PRNG order) over bufconn.Pipe against a concurrent scripted peer: 70% tee comparisons (one script = advertisement [STARTTLS required/optional, alone/among others, absent with mechanisms, empty list, unknown only, wrong namespace] x answer to <starttls/> [<proceed/> + real crypto/tls handshake, <proceed/> + clear text pipelined in the same write then handshake or EOF, <proceed/> then EOF or clear text after the ClientHello, <failure/>, unknown element, wrong namespace, text, EOF, forged <success/>, second features list, stream error] (each of the last nine also led by white space: white space then <proceed/> + handshake, then EOF, then <failure/>, then a clear-text features list inviting SASL and bind) x in-TLS script [full SASL+bind, empty features, EOF, SASL failure] x protected stream headers [complete, without id, without version, without both; the clear-text header always has id and version] x explicit/default TLS config, run without the tee and with 1-3 of tee in/out/both), 20% one StartTLS(nil) value reused sequentially for 2-5 sessions with different domains, 10% the same concurrently (children are built with -race). Oracles per session: bytes before the first TLS record tokenise to XML declaration + one stream header + at most one <starttls/>; only TLS records follow; Ready => Secure, ConnectionState().HandshakeComplete and the peer reached, inside TLS, the point that legitimately makes a client ready; Authn or a Secure-requiring feature only after the handshake; default config => ClientHello server name = domain of the session's address; once the peer has completed a handshake Session.In() (sampled at the end and inside Secure-requiring features) never shows the clear-text header's id, and shows version 1.0 only if a protected header carried it. Tee relation: identical clear-text bytes and outcome class (nil error, state bits, handshake, sequence of client events in clear and inside TLS). distinct = (advertisement, answer, in-TLS script, tee, cfg, instrumented, outcome class).",
 		Assumptions: []string{
 			"XML clear text never contains a byte sequence that looks like a TLS record header (control bytes 20-23 are not legal XML characters)",
 			"the harness certificate is made the process's only system root through SSL_CERT_FILE so that sessions with no TLS configuration can complete a handshake",
